@@ -3,6 +3,7 @@ mod alloc;
 mod ebrworld;
 mod qlworld;
 mod rcdirected;
+mod rcpairs;
 mod rcrun;
 mod rcworld;
 mod sched;
@@ -234,6 +235,29 @@ fn real_main() {
         "child-c06" => stress::child_c06(&args[2], args[3].parse().unwrap(), args[4].parse().unwrap(), args[5].parse().unwrap(), args[6].parse().unwrap()),
         "child-c20" => stress::child_c20(args[2].parse().unwrap(), args[3].parse().unwrap(), args[4].parse().unwrap()),
         "child-shape" => stress::child_shape(args[2].parse().unwrap()),
+        "rc-pairs" => {
+            rc_setup();
+            // --a / --b : comma separated call names (empty = all); --grace 0|1
+            let fa = sarg(&args, "--a", "");
+            let fb = sarg(&args, "--b", "");
+            let grace: usize = arg(&args, "--grace", 0);
+            let out = sarg(&args, "--out", "pairs");
+            let sa: Vec<String> = fa.split(',').filter(|x| !x.is_empty()).map(|x| x.to_string()).collect();
+            let sb: Vec<String> = fb.split(',').filter(|x| !x.is_empty()).map(|x| x.to_string()).collect();
+            let mut ctl = rcworld::Ctl::new(2);
+            let n = rcpairs::run_pairs(&mut ctl, &|x| sa.is_empty() || sa.iter().any(|y| y == x), &|x| sb.is_empty() || sb.iter().any(|y| y == x), grace == 1);
+            let file = format!("{}.t2.ndjson", out);
+            write_out(&file, &ctl.out);
+            println!(
+                "{{\"runs\":[{{\"file\":{:?},\"vocab\":\"pairs\",\"threads\":2,\"scenarios\":{},\"aborted\":0,\"lines\":{},\"sites\":{{{}}},\"ops\":{{{}}}}}]}}",
+                file,
+                n,
+                ctl.out.len(),
+                ctl.site_hits.iter().map(|(k, v)| format!("\"{}\":{}", k, v)).collect::<Vec<_>>().join(","),
+                ctl.op_hits.iter().map(|(k, v)| format!("\"{}\":{}", k, v)).collect::<Vec<_>>().join(",")
+            );
+            ctl.quit();
+        }
         _ => {
             eprintln!("usage: circ-conf rc-random --seed N --n N --threads N --ops N --vocab V --out FILE");
             std::process::exit(2);
